@@ -153,14 +153,39 @@ func (s *c09State) condValue1(v ssa.Value, fr *c09Frame, prev *ssa.BasicBlock) (
 				}
 			}
 			// request bit: flags & 128 == 128
-			if and, ok := x.X.(*ssa.BinOp); ok && and.Op == token.AND {
-				k1, ok1 := flow.ConstInt(and.Y)
-				k2, ok2 := flow.ConstInt(x.Y)
-				if _, fld, _, okf := flow.FieldOf(flow.Peel(and.X)); okf && fld == "CommandFlags" && ok1 && ok2 && k1 == 128 && k2 == 128 {
-					if x.Op == token.EQL {
-						return s.assign["REQ"], true
+			if mask, ok := reqBitTest(x, 0); ok {
+				if mask != 128 {
+					s.wrong = reqMaskMsg(mask)
+					s.bad = s.wrong
+					return false, false
+				}
+				return s.assign["REQ"], true
+			}
+		}
+	case *ssa.Call:
+		if mask, ok := reqBitTest(x, 0); ok {
+			if mask != 128 {
+				s.wrong = reqMaskMsg(mask)
+				s.bad = s.wrong
+				return false, false
+			}
+			return s.assign["REQ"], true
+		}
+	}
+	// a field of a local struct literal (idx.Request): evaluate what was stored there
+	if u, ok := v.(*ssa.UnOp); ok && u.Op == token.MUL {
+		if fa, ok := u.X.(*ssa.FieldAddr); ok {
+			if al, ok := fa.X.(*ssa.Alloc); ok {
+				for _, ref := range flow.Referrers(al) {
+					fa2, ok := ref.(*ssa.FieldAddr)
+					if !ok || fa2.Field != fa.Field {
+						continue
 					}
-					return !s.assign["REQ"], true
+					for _, r2 := range flow.Referrers(fa2) {
+						if st, ok := r2.(*ssa.Store); ok {
+							return s.condValue1(st.Val, fr, prev)
+						}
+					}
 				}
 			}
 		}
@@ -369,15 +394,7 @@ func runC09(c *Ctx) {
 			return ok && tn == "Header" && fld == f
 		}
 		good := hdr(fields["AppID"], "ApplicationID") && hdr(fields["Code"], "CommandCode")
-		if bo, ok := fields["Request"].(*ssa.BinOp); ok && bo.Op == token.EQL {
-			and, ok := bo.X.(*ssa.BinOp)
-			k2, ok2 := flow.ConstInt(bo.Y)
-			if !ok || and.Op != token.AND || !ok2 || k2 != 128 || !hdr(and.X, "CommandFlags") {
-				good = false
-			} else if k1, ok1 := flow.ConstInt(and.Y); !ok1 || k1 != 128 {
-				good = false
-			}
-		} else {
+		if mask, ok := reqBitTest(fields["Request"], 0); !ok || mask != 128 {
 			good = false
 		}
 		r.Check(good, "R2", fname(sd)+":exact-key", c.pos(a), "exact key = (Header.ApplicationID, Header.CommandCode, CommandFlags&0x80==0x80)", "the exact-index key is not built from the message's application id, command code and request bit")
@@ -505,4 +522,50 @@ func runC09(c *Ctx) {
 		}
 		r.Check(good, "R4", fname(fc)+":base-fallback", c.fpos(fc), "second lookup with application 0 on the miss edge of the first", "FindCommand does not fall back to the base application: messages of applications that reuse base commands are dispatched as unknown")
 	}
+}
+
+// reqBitTest classifies a boolean value as the request-bit test of the dispatched message:
+// CommandFlags & m == m, inline or through a module helper. Returns (mask, true) when it has that
+// shape (mask 128 = exactly the R bit).
+func reqBitTest(v ssa.Value, depth int) (int64, bool) {
+	switch x := v.(type) {
+	case *ssa.BinOp:
+		if x.Op != token.EQL {
+			return 0, false
+		}
+		and, ok := x.X.(*ssa.BinOp)
+		if !ok || and.Op != token.AND {
+			return 0, false
+		}
+		k1, ok1 := flow.ConstInt(and.Y)
+		k2, ok2 := flow.ConstInt(x.Y)
+		if _, fld, _, okf := flow.FieldOf(flow.Peel(and.X)); okf && fld == "CommandFlags" && ok1 && ok2 {
+			if k1 == k2 {
+				return k1, true
+			}
+			return k1<<8 | k2, true // mask and expected value differ: never exactly the R-bit test
+		}
+	case *ssa.Call:
+		if depth > 2 {
+			return 0, false
+		}
+		g := flow.StaticCallee(x)
+		if g == nil || g.Blocks == nil {
+			return 0, false
+		}
+		rvs := flow.ReturnValues(g, 0)
+		if len(rvs) != 1 {
+			return 0, false
+		}
+		return reqBitTest(rvs[0], depth+1)
+	}
+	return 0, false
+}
+
+func reqMaskMsg(v int64) string {
+	mask, want := v, v
+	if v > 0xff {
+		mask, want = v>>8, v&0xff
+	}
+	return fmt.Sprintf("the request/answer side of a message is decided by CommandFlags & %#x == %#x instead of the R bit (0x80) alone: messages with other flag bits set are dispatched to the handler of the wrong side", mask, want)
 }
